@@ -15,9 +15,13 @@ def renderNat (n : Nat) : List Char := Nat.toDigits 10 n
 def renderPoint (key : List Char) (idx : Option Nat) (id : Option (List Char)) : List Char :=
   key ++ (match idx with | some i => ':' :: renderNat i | none => []) ++ (match id with | some s => '#' :: s | none => [])
 
-/-- `strconv.Atoi` on unsigned decimal digit strings (the only ones the executor renders) -/
+/-- `strconv.Atoi` on an optional '+' followed by decimal digits (negative indices, which Atoi also accepts, are
+    never rendered by the executor and are outside the model: the correspondence does not generate them) -/
 def atoi (cs : List Char) : Option Nat :=
-  if cs ≠ [] ∧ cs.all Char.isDigit = true then some (Nat.ofDigitChars 10 cs 0) else none
+  let ds := match cs with
+    | '+' :: r => r
+    | _ => cs
+  if ds ≠ [] ∧ ds.all Char.isDigit = true then some (Nat.ofDigitChars 10 ds 0) else none
 
 structure PointData where
   field : List Char
@@ -37,9 +41,11 @@ def parsePoint (p : List Char) : Option PointData :=
     let idxStr := rest.takeWhile (· ≠ ':')
     (atoi idxStr).map fun i => ⟨f, some i, id⟩
 
-/-- `isListElement`: the part before the first '#' contains a ':' -/
+/-- `isListElement`: the part before the first '#' contains a ':' (Go cuts the string only when the '#' is not
+    its first byte: `hashLocation > 0`) -/
 def isListElement (p : List Char) : Bool :=
   match splitFirst '#' p with
+  | some ([], _) => p.contains ':'
   | some (a, _) => a.contains ':'
   | none => p.contains ':'
 
@@ -67,9 +73,20 @@ theorem digits_no (n : Nat) (c : Char) (hc : c.isDigit = false) : c ∉ renderNa
   have := Nat.isDigit_of_mem_toDigits (b := 10) (by decide) (by decide) h
   rw [hc] at this; cases this
 
+theorem stripPlus_renderNat (n : Nat) :
+    (match renderNat n with
+      | '+' :: r => r
+      | _ => renderNat n) = renderNat n := by
+  split
+  · rename_i r h
+    have : '+' ∈ renderNat n := by rw [h]; exact List.mem_cons_self ..
+    exact absurd this (digits_no n '+' (by decide))
+  · rfl
+
 theorem atoi_renderNat (n : Nat) : atoi (renderNat n) = some n := by
   unfold atoi
   have h1 : renderNat n ≠ [] := Nat.toDigits_ne_nil
+  simp only [stripPlus_renderNat]
   simp only [h1, ne_eq, not_false_eq_true, digits_isDigit n, and_self, if_true]
   simp [renderNat]
 
@@ -127,9 +144,9 @@ theorem point_roundtrip (key : List Char) (idx : Option Nat) (id : Option (List 
           simpa using this)
       simp only [this, atoi_renderNat, Option.map_some]
 
-/-- a rendered point is a list element exactly when it carries an index -/
+/-- a rendered point is a list element exactly when it carries an index (field names are never empty) -/
 theorem isListElement_render (key : List Char) (idx : Option Nat) (id : Option (List Char))
-    (hk1 : '#' ∉ key) (hk2 : ':' ∉ key) : isListElement (renderPoint key idx id) = idx.isSome := by
+    (hk0 : key ≠ []) (hk1 : '#' ∉ key) (hk2 : ':' ∉ key) : isListElement (renderPoint key idx id) = idx.isSome := by
   have hhash : ('#' : Char).isDigit = false := by decide
   have hcolon : (':' : Char).isDigit = false := by decide
   have hpre : '#' ∉ key ++ (match idx with | some i => ':' :: renderNat i | none => []) := by
@@ -146,9 +163,12 @@ theorem isListElement_render (key : List Char) (idx : Option Nat) (id : Option (
   cases id with
   | some s =>
     rw [splitFirst_append s hpre]
-    cases idx with
-    | none => simp [hk2]
-    | some i => simp
+    cases key with
+    | nil => exact absurd rfl hk0
+    | cons c cs =>
+      cases idx with
+      | none => simpa using hk2
+      | some i => simp
   | none =>
     simp only [List.append_nil]
     rw [splitFirst_none hpre]
